@@ -73,3 +73,22 @@ def eval_model(ctx, modules, fn, id_terms, tag="model"):
     """id_terms: list of (id, coq device term). Evaluates `fn <term>` (must return string)."""
     pre = PREAMBLE.format(mods=" ".join(modules))
     return vlib.coq_eval_strings(ctx, pre, [(i, f"{fn} ({t})") for i, t in id_terms], tag=tag)
+
+
+def reworded_ok(result, model_status):
+    """A rejection whose message text no longer matches any known wording (tools/errmap.py gives `other:`), while the
+    model also rejects and every subject name the model's error carries occurs in the real message: the definition is
+    still rejected by a compile error naming the object(s), which is all the properties ask — a rewording of a message
+    is not a violation."""
+    if result.get("status") != "error" or not model_status.startswith(("error:", "oneof:")):
+        return False
+    if not errmap.classify(result.get("message")).startswith("other:"):
+        return False
+    msg = result.get("message") or ""
+    alts = model_status.split(":", 1)[1].split(";") if model_status.startswith("oneof:") else [model_status[len("error:"):]]
+    for a in alts:
+        parts = a.split(":", 1)
+        args = [x for x in (parts[1].split("|") if len(parts) > 1 else []) if x]
+        if all(x in msg for x in args):
+            return True
+    return False
